@@ -45,11 +45,17 @@ LEVEL_TEXT = ("Generated histories of transform operations and moves judged "
 
 def op_strategy(depth=1):
     from hypothesis import strategies as st
-    c = hist.small_coord()
+    c = st.one_of(hist.small_coord(), hist.small_coord(),
+                  st.floats(min_value=-400, max_value=400, allow_nan=False),
+                  st.integers(-5, 5).map(lambda k: k / 4.0))
     f = st.one_of(st.floats(min_value=0.1, max_value=10), st.floats(min_value=-10, max_value=-0.1),
                   st.sampled_from([2.0, 0.5, -1.0, 1.0]))
     ang = st.one_of(st.sampled_from([90.0, 45.0, 180.0, -90.0, 30.0, 360.0]),
-                    st.floats(min_value=-720, max_value=720))
+                    st.floats(min_value=-720, max_value=720),
+                    # weak coupling (bed-skew corrections): the induced change of an
+                    # unrequested axis is small but far above the output resolution
+                    st.floats(min_value=0.005, max_value=1.5),
+                    st.floats(min_value=-1.5, max_value=-0.005))
     nv = st.lists(st.floats(min_value=-5, max_value=5), min_size=3, max_size=3).filter(
         lambda v: math.sqrt(sum(x * x for x in v)) > 0.1)
     T = lambda name, *a: {"op": "t", "name": name, "args": list(a)}
@@ -73,6 +79,14 @@ def op_strategy(depth=1):
         st.tuples(c, c, c).map(lambda t: {"op": "sync", "pt": {"x": t[0], "y": t[1], "z": t[2]}}),
         st.sampled_from(["absolute", "relative"]).map(
             lambda m: {"op": "set_distance_mode", "mode": m}),
+        # short single-axis step from wherever the head is
+        st.tuples(st.sampled_from(["x", "y", "z"]),
+                  st.one_of(st.integers(-8, 8).map(lambda k: k / 4.0),
+                            st.floats(min_value=-3, max_value=3))).map(
+            lambda t: {"op": "nudge", "axis": t[0], "d": t[1]}),
+        st.tuples(st.sampled_from(["x", "y", "z"]),
+                  st.integers(-8, 8).map(lambda k: k / 4.0)).map(
+            lambda t: {"op": "nudge", "axis": t[0], "d": t[1]}),
         st.fixed_dictionaries({"op": st.sampled_from(["set_axis", "move_absolute", "auto_home"]),
                                "pt": pt, "form": st.just("kw")}),
         st.fixed_dictionaries({"op": st.just("shape"), "d": hist.shape_strategy(2),
@@ -159,6 +173,13 @@ class Runner:
                 self.check_synced(f"after {op!r}")
             return
         # move / rapid / probe / sync ------------------------------------
+        if name == "nudge":
+            p0 = g.position.resolve()
+            k = "xyz".index(op["axis"])
+            cur = float(p0[k])
+            op = {"op": "move", "form": "kw",
+                  "pt": {op["axis"]: op["d"] if g.distance_mode.is_relative else cur + op["d"]}}
+            name = "move"
         if name == "sync":
             was_rel = g.distance_mode.is_relative
             if was_rel:
@@ -188,6 +209,10 @@ class Runner:
         coupled = m.couples_axes()
         if coupled and 0 < len(req) < 3:
             self.cl.add("partial_move_under_coupling_transform")
+            small = [abs(float(Fraction(Mt[k]) - Fraction(Mo[k]))) for k in range(3)
+                     if "xyz"[k] not in req]
+            if any(4 * float(s.U) < v < 1e-5 * max(1.0, self.maxc) for v in small):
+                self.cl.add("tiny_induced_change_on_unrequested_axis")
         if coupled and rel and req:
             self.cl.add("relative_move_under_coupling_transform")
         if not m.is_identity():
